@@ -412,8 +412,13 @@ def job_bams(job):
                                 calls = [[SNV_ALLELES[j].index(row[j]) if row[j] in SNV_ALLELES[j] else -1 for j in range(len(SNV_POS))] for row in rows]
                                 rcalls = sum(1 for c in calls for x in c if x >= 0)
                                 dp = float(np.round(np.mean(snvdp)))
-                                gotv = (int(data.sampledata[FORMAT.RCOUNT][s]), [int(x) for x in np.atleast_1d(data.sampledata[FORMAT.SNVDP][s])],
-                                        int(data.sampledata[FORMAT.RCALLS][s]), float(data.sampledata[FORMAT.DP][s]))
+                                def _i(x):  # what the program stored, NaN kept visible instead of crashing the comparison
+                                    x = float(x)
+                                    return None if x != x else int(x)
+
+                                dpv = float(data.sampledata[FORMAT.DP][s])
+                                gotv = (_i(data.sampledata[FORMAT.RCOUNT][s]), [_i(x) for x in np.atleast_1d(data.sampledata[FORMAT.SNVDP][s])],
+                                        _i(data.sampledata[FORMAT.RCALLS][s]), None if dpv != dpv else dpv)
                                 if gotv != (rcount, snvdp, rcalls, dp):
                                     r.violation("encode-counts|letters=%s|id=%s|sample=%s" % (labels, idf, s),
                                                 "(RCOUNT, SNVDP, RCALLS, DP) = %r, filtered pileup gives %r (%s)" % (gotv, (rcount, snvdp, rcalls, dp), tag), payload)
